@@ -139,7 +139,9 @@ def build(libtype, node, v, f=None, enum_members=True):
     if k in ("char", "wchar"):
         return v
     if k == "void":
-        return None
+        # the value of a void member is a void object (None would mean "not given" to a constructor but is kept as it
+        # is by an assignment)
+        return libtype() if isinstance(libtype, type) else None
     if k == "enum":
         return v if enum_members == "raw" else libtype(v)
     if k == "array":
@@ -202,3 +204,11 @@ def exc_sig(e):
 
 def lib_fields(T):
     return T.__fields__
+
+
+_ADDR = __import__("re").compile(r" object at 0x[0-9a-f]+")
+
+
+def stable_repr(x):
+    """repr() without object addresses (the default repr of a void member's value contains one)."""
+    return _ADDR.sub("", repr(x))
